@@ -241,6 +241,33 @@ def spec_answers(case):
     return out
 
 
+def exhaustive_cases(thorough: bool):
+    """Seed-independent stratum: one skeleton (variable x, parameter k, initial-assignment parameter q, derived d1,
+    d2, reaction r with a computed coefficient) and EVERY assignment of (name, expression) from {f, g} x {a0*a1,
+    a0+a1} to its function slots (4 slots in the quick tier, 5 in the thorough tier): all sharing / collision
+    patterns of that skeleton."""
+    import itertools
+
+    E = [["*", ["a", 0], ["a", 1]], ["+", ["a", 0], ["a", 1]]]
+    choices = [(n, e) for n in ("f", "g") for e in E]
+    slots = 5 if thorough else 4
+    out = []
+    for combo in itertools.product(choices, repeat=slots):
+        fn = [{"name": n, "e": e} for n, e in combo]
+        if slots == 4:
+            fn.append({"name": "h", "e": E[0]})
+        content = {
+            "vars": [["x", {"v": "1"}]],
+            "pars": [["k", {"v": "2"}], ["q", {"ia": dict(fn[0], args=["k", "x"])}]],
+            "derived": [["d1", dict(fn[1], args=["x", "k"])], ["d2", dict(fn[2], args=["d1", "q"])]],
+            "rxns": [["r", dict(fn[3], args=["d2", "x"], st=[["x", dict(fn[4], args=["k", "q"])]])]],
+        }
+        out.append({"content": content, "bad": [], "decl_seed": len(out), "stratum": "exhaustive",
+                    "queries": [["init"], ["pvals"], ["args", None, "0"], ["rhs", [["x", "3"]], "1"], ["call", "1", ["3"]],
+                                ["stoich", [["x", "3"]], "1"]]})
+    return out
+
+
 def evaluate(cases, use_driver=True):
     Rs = pool().map(_real_worker, cases, chunksize=4)
     if use_driver:
@@ -454,7 +481,13 @@ def run(ctx):
     for case, (R, M) in zip(corpus, evaluate(corpus, ctx.driver_ok)):
         case["stratum"] = "corpus"
         judge_case(ctx, case, R, M)
-    n = int(os.environ.get("VERIF_N") or ctx.n(500, 30000))
+    ex = exhaustive_cases(ctx.tier == "thorough")
+    ctx.extra_cov["exhaustive_stratum"] = {"cases": len(ex), "what": exhaustive_cases.__doc__.split(":", 1)[1].strip()[:400]}
+    for i in range(0, len(ex), 256):
+        chunk = ex[i:i + 256]
+        for case, (R, M) in zip(chunk, evaluate(chunk, ctx.driver_ok)):
+            judge_case(ctx, case, R, M)
+    n = int(os.environ.get("VERIF_N") or ctx.n(350, 30000))
     if not ctx.proof_ok:
         n = max(n, 3000)
         ctx.notes.append("proof side broken: widened search")
